@@ -59,6 +59,8 @@ scen('default-list', lambda o: PT + mk.class_src('K', ['l = Int(1).repeated(2, d
      [b'\x01\x02\x03\x04\x05', b'\x00\x00\x00\x00\x00', b'\x09\x09\x01\x01\x01'], [{}, {'z': 3}])
 scen('shared-proto', lambda o: PT + 'proto = Pt(x=5)\n' + mk.class_src('K', ['a = Ref(proto)', 'z = Int(1)'], o) + mk.class_src('K2', ['h = Int(1)', 'a = Ref(proto)', 'b = Ref(Pt)'], o),
      [b'\x01\x02\x03', b'\x00\x00\x00', b'\x09\x08\x07'], [{}, {'z': 1}])
+scen('expr', lambda o: mk.class_src('K', ['p = Int(1)', 'n = Int(1)', 'x = Int(1)', 'd = Data(p + (n + x))', 'l = Int(1).repeated((n * 2) - x, when=(p + n) > x)', 'z = Int(1)'], o),
+     [b'\x01\x01\x01ABC\x05\x09', b'\x00\x02\x00XY\x01\x02\x03\x04\x07', b'\x00\x00\x00\x08'], [{}, {'p': 1, 'd': b'q'}])
 scen('positioned', lambda o: mk.class_src('K', ['n = Int(1)', 'd = Data(2).at(n)', 'e = Em().aligned(4)'], o),
      [b'\x01AB', b'\x02.CD', b'\x03..EF'], [{}, {'n': 2, 'd': b'xy'}])
 
